@@ -4,6 +4,8 @@ import OV.Lemmas.C06Complete
 import OV.Lemmas.C06Solve
 import OV.Lemmas.C06SolveC
 import OV.Lemmas.C06Multi
+import OV.Lemmas.C06SoundOr
+import OV.Lemmas.C06CompleteOr
 /-!
 # C06 — the pattern matcher reports a match exactly when the subgraph is an instance
 
@@ -39,6 +41,25 @@ theorem match_sound_partial (E : Env) (root : NodeId) (rm : Bool) (r : Result)
       (rm = true → Removable E.g r.nodes r.outputs) :=
   patternMatch_sound E root rm r hno htopo har h
 
+/-- **Soundness with `BacktrackingOr`** (code after repair C06-F3, /repo e143b53: `merge` keeps the node
+and value bindings of a successful alternative).  For every pattern of the pattern language —
+`BacktrackingOr` nested arbitrarily, with or without tag variables, any number of output nodes; the only
+exclusion is an `OpIdDispatchOr` *with* a tag variable (`backOk`), whose `bind` result the code ignores —
+a match reported by `Pattern.match` is an instance under the assignment read off the result (one chosen
+alternative per OR occurrence, tag variables bound to the chosen alternative's tag), every checker that
+ran accepted, the outputs are the images of the pattern outputs, `match.nodes` is the image of the
+node bindings in binding order, and with `remove_nodes` the matched nodes are removable.  What is *not* guaranteed for such patterns is completeness
+(`match_complete_full_refuted`, finding C06-D11).  Before the repair the statement was false
+(`match_sound_or_prefix_refuted`). -/
+theorem match_sound_or_partial (E : Env) (root : NodeId) (rm : Bool) (r : Result)
+    (hf3 : E.fixF3 = true) (hno : E.p.backOk = true) (htopo : E.p.topoDeep)
+    (har : E.fixF1 = true ∨ OutputArityOk E.p E.g) (h : patternMatch E root rm = some r) :
+    Instance E root r.assign ∧ ChecksPass E.p r.assign ∧
+      (rm = true → Removable E.g r.nodes r.outputs) ∧
+      E.p.outputs.mapM (r.assign.outputOf E.p) = some r.outputs ∧
+      r.nodes = r.nb.map (·.2) :=
+  patternMatch_soundS E root rm r hf3 hno htopo har h
+
 /-- **The reported bindings / nodes / outputs are exactly the instance's.**  Under the same
 hypotheses: `r.outputs` are the images of the pattern outputs in order (by name when named, by
 object identity otherwise), `r.nodes` is the image of the pattern nodes in binding order, and
@@ -67,9 +88,42 @@ theorem match_complete_partial (E : Env) (A : Assign) (root : NodeId) (np0 : NPI
       ((patternMatch E root true).isSome = true ↔ Removable E.g r.nodes r.outputs) :=
   patternMatch_complete_single E A root np0 hno htopo hnc hsingle hroot hinst hchk
 
+/-- **Completeness with `BacktrackingOr` whose alternatives are mutually exclusive** (code after repair
+C06-F3).  If no value can satisfy two alternatives of one `OrValue` — under any assignment
+(`GPat.exclOk`: `ExclAlts` for every BacktrackingOr, nested ones included; it also asks that no named
+variable carries a checker) — then committing to the first locally successful alternative loses nothing:
+for a pattern with one output node whose outputs are the pattern outputs, every instance with accepting
+checkers is reported by `Pattern.match(…, check_nodes_are_removable=False)`, and with
+`check_nodes_are_removable=True` exactly when the found nodes are removable.  OpIdDispatchOr (without tag
+variable) is covered as well.  Without exclusivity the statement is false: `match_complete_full_refuted`
+(finding C06-D11; its witness `OrValue([Neg(x), x])` has alternatives that one value satisfies both). -/
+theorem match_complete_or_partial (E : Env) (A : Assign) (root : NodeId) (np0 : NPId)
+    (hf3 : E.fixF3 = true) (hbk : E.p.backOk = true) (hex : GPat.exclOk E) (htopo : E.p.topoDeep)
+    (har : E.fixF1 = true ∨ OutputArityOk E.p E.g) (hsingle : E.p.outputNodes = [np0])
+    (hroot : OutputsOfRoot E.p np0) (hinst : Instance E root A) (hchk : ChecksPass E.p A) :
+    ∃ r, patternMatch E root false = some r ∧
+      ((patternMatch E root true).isSome = true ↔ Removable E.g r.nodes r.outputs) :=
+  patternMatch_complete_or E A root np0 hf3 hbk hex htopo har hsingle hroot hinst hchk
+
+/-- **A match is reported exactly when the subgraph is an instance** — the property's sentence as one
+theorem, for the fragment where both directions hold: repaired `merge` (C06-F3), no OpIdDispatchOr with tag
+variable, mutually exclusive OR alternatives and no checker on named variables (`exclOk`), acyclic pattern
+with one output node whose outputs are the pattern outputs.  Without the removability test a match is
+reported iff some assignment makes the subgraph ending at `root` an instance with accepting checkers; with
+it, iff moreover the nodes of that match are removable. -/
+theorem match_iff_instance_partial (E : Env) (root : NodeId) (np0 : NPId) (hf3 : E.fixF3 = true)
+    (hbk : E.p.backOk = true) (hex : GPat.exclOk E) (htopo : E.p.topoDeep)
+    (har : E.fixF1 = true ∨ OutputArityOk E.p E.g) (hsingle : E.p.outputNodes = [np0])
+    (hroot : OutputsOfRoot E.p np0) :
+    ((patternMatch E root false).isSome = true ↔ ∃ A, Instance E root A ∧ ChecksPass E.p A) ∧
+    ((patternMatch E root true).isSome = true ↔
+      ∃ r, patternMatch E root false = some r ∧ Removable E.g r.nodes r.outputs) :=
+  patternMatch_iff_instance E root np0 hf3 hbk hex htopo har hsingle hroot
+
 /-- **Completeness — OR-free patterns with several output nodes, outside finding C06-F5.**
-If every output node after the first has an operator identifier and no host node carries an
-overload (the two conditions whose failure is finding C06-F5), the pattern outputs are outputs of
+With repair C06-F5 (`E.fixF5 = true`) unconditionally, and for the code before it if every output
+node after the first has an operator identifier and no host node carries an overload
+(`CandidatesComplete`; the two conditions whose failure is finding C06-F5), the pattern outputs are outputs of
 output nodes and no opaque checker rejects, then every instance is reported: the instance's own
 node combination is among the candidates `itertools.product` goes through, `_multi_match` succeeds
 on it, hence `SimplePatternMatcher.match` and `Pattern.match` report a match (possibly on an earlier
@@ -78,12 +132,12 @@ part of `match_sound_partial`. -/
 theorem match_complete_multi_partial (E : Env) (A : Assign) (root : NodeId)
     (hno : E.p.noOr = true) (htopo : E.p.topo) (hnc : E.fixF2 = false ∨ NamedVarsUnchecked E.p)
     (har : E.fixF1 = true ∨ OutputArityOk E.p E.g)
-    (houts : OutputsOfOutputNodes E.p) (hid : LaterOutputsIdentified E.p) (hov : NoOverloads E.g)
+    (houts : OutputsOfOutputNodes E.p) (hcc : CandidatesComplete E)
     (hchk : E.p.checksOk = true) (hinst : Instance E root A) :
     (∃ combo, combo ∈ combos E root ∧ (multiMatch E false combo).ok = true) ∧
       (patternMatch E root false).isSome = true :=
-  ⟨let ⟨c, h1, h2, _⟩ := matcher_complete_multi E A root hno htopo hnc har houts hid hov hinst; ⟨c, h1, h2⟩,
-   patternMatch_complete_multi E A root hno htopo hnc har houts hid hov hchk hinst⟩
+  ⟨let ⟨c, h1, h2, _⟩ := matcher_complete_multi E A root hno htopo hnc har houts hcc hinst; ⟨c, h1, h2⟩,
+   patternMatch_complete_multi E A root hno htopo hnc har houts hcc hchk hinst⟩
 
 /-- **Determinism / first combination in graph order.**  A successful match is the result of
 `_multi_match` on one candidate combination that starts with `root`, and every combination that
@@ -129,15 +183,15 @@ theorem solve_complete_partial (E : Env) (root : NodeId) (A : Assign) (htopo : E
 that are `false` outside the `k` node patterns whose operator identifier is in
 `COMMUTATIVE_OPS` (and, with proposed fix C06-F7b, that are written with two inputs), each once, the all-`false` mask first — and for that mask the pattern itself
 (not a copy) is returned. -/
-theorem commute_exact (fix7a fix7b : Bool) (p : GPat) (l : List GPat)
-    (h : commute fix7a p fix7b = .ok l) :
+theorem commute_exact (fix7a fix7b fix7c : Bool) (p : GPat) (l : List GPat)
+    (h : commute fix7a p fix7b fix7c = .ok l) :
     l.length = 2 ^ (p.nodes.filter (NPat.swappable fix7b)).length ∧
       (masks fix7b p.nodes).Nodup ∧
       (∀ m, m ∈ masks fix7b p.nodes ↔
         m.length = p.nodes.length ∧ ∀ (i : Nat) (b : Bool), m[i]? = some b → b = true →
           ∃ n : NPat, p.nodes[i]? = some n ∧ n.swappable fix7b = true) ∧
       l.head? = some p :=
-  commute_counts fix7a fix7b p l h
+  commute_counts fix7a fix7b fix7c p l h
 
 /-- **Every swapped variant is the pattern with the masked nodes' two inputs exchanged.**  For a
 mask `m` with at least one swap, node pattern `i` of `copy_graph(m)` equals node pattern `i` of `p`
@@ -148,22 +202,22 @@ inputs are — up to object identity of the cloned value patterns (`skel`: ids e
 ("the variants match exactly the instances of the swapped patterns") is *not* a theorem here: it
 needs invariance of `Instance` under renaming of object ids and fails where cloning un-shares a
 doubly used unnamed object; the correspondence check tests it per case (commute oracle). -/
-theorem commute_variant_is_swap (fix7a : Bool) (p q : GPat) (m : List Bool) (hm : m.any id = true)
-    (h : copyGraph fix7a p m = .ok q) :
+theorem commute_variant_is_swap (fix7a fix7c : Bool) (p q : GPat) (m : List Bool) (hm : m.any id = true)
+    (h : copyGraph fix7a p m fix7c = .ok q) :
     ∀ (i : Nat) (n n' : NPat) (b : Bool), p.nodes[i]? = some n → m[i]? = some b → q.nodes[i]? = some n' →
       skelInputs n'.inputs = (if b then (skelInputs n.inputs).reverse else skelInputs n.inputs) ∧
       (b = true → n.inputs.length = 2) ∧ n' = { n with inputs := n'.inputs, opIsStr := false } :=
-  copyGraph_skel fix7a p q m hm h
+  copyGraph_skel fix7a fix7c p q m hm h
 
 /-- **`commute` keeps every `Constant` pattern intact**: in every variant, node pattern `i` holds
 exactly the `Constant` patterns of node pattern `i` of the original — same value, same `rel_tol`,
 same `abs_tol` (a `ConstPat` is the triple).  So a swapped variant accepts a constant iff the
 pattern as written does. -/
-theorem clone_preserves_constant (fix7a fix7b : Bool) (p : GPat) (l : List GPat) (q : GPat)
-    (h : commute fix7a p fix7b = .ok l) (hq : q ∈ l) :
+theorem clone_preserves_constant (fix7a fix7b fix7c : Bool) (p : GPat) (l : List GPat) (q : GPat)
+    (h : commute fix7a p fix7b fix7c = .ok l) (hq : q ∈ l) :
     ∀ (i : Nat) (n n' : NPat), p.nodes[i]? = some n → q.nodes[i]? = some n' →
       ∀ c : ConstPat, c ∈ n'.consts ↔ c ∈ n.consts :=
-  commute_consts fix7a fix7b p l q h hq
+  commute_consts fix7a fix7b fix7c p l q h hq
 
 /-! ## Refutations of the unrestricted statements (witnesses replayed on the real matcher) -/
 
@@ -316,6 +370,128 @@ theorem match_sound_extra_outputs_prefix_refuted :
 
 /-- with the repaired `_match_node` (`fixF1 = true`) the F1 witness is no longer reported -/
 example : (patternMatch { f1 with fixF1 := true } 0 false).isSome = false := by decide
+
+/-- findings C06-F3/F4 (fixed in /repo e143b53; `fixF3 := false` restates `merge` before the repair):
+`t = Neg(x); Add(OrValue([t, y]), t)` against `n1 = Neg(a); n2 = Neg(a); s = Add(n1, n2)` -/
+def f4 : Env :=
+  { p := { inputs := [some "x", some "y"], cond := true,
+           nodes := [mkNode "Neg" [some xVar] 1,
+                     mkNode "Add" [some (.orB 4 none none [0, 1] [.out 0 0, .var 2 (some "y") true false none]),
+                                   some (.out 0 0)] 1],
+           outputs := [.out 1 0] }
+    g := { nodes := [mkGNode "Neg" [some 0] [1], mkGNode "Neg" [some 0] [2], mkGNode "Add" [some 1, some 2] [3]],
+           outputs := [3], consts := [], foreign := [], extUses := [] }
+    close := closeEq
+    fixF3 := false }
+
+/-- **Before repair e143b53 soundness failed for BacktrackingOr patterns** (findings C06-F3/F4, reproduced
+on the real matcher at that revision): `merge` dropped the node binding of `t` made inside the first
+alternative, `t` was matched again against the other `Neg` node, and the reported assignment (t ↦ n2,
+OR ↦ n1's output, y ↦ None) is no instance.  With the repaired `merge` the same input is not matched
+this way (`example` below). -/
+theorem match_sound_or_prefix_refuted :
+    ¬ (∀ (E : Env) (root : NodeId) (rm : Bool) (r : Result), E.fixF3 = false → E.p.backOk = true →
+        E.p.topoDeep → patternMatch E root rm = some r → Instance E root r.assign) := by
+  intro h
+  have hm : (patternMatch f4 2 false).isSome = true := by decide
+  obtain ⟨r, hr⟩ := Option.isSome_iff_exists.1 hm
+  have hnb : (patternMatch f4 2 false).map (fun r => (r.nb, r.bindings)) =
+      some ([(1, 2), (0, 1)], [("x", .val 0), ("y", .none)]) := by decide
+  rw [hr] at hnb
+  simp only [Option.map_some, Option.some.injEq, Prod.mk.injEq] at hnb
+  obtain ⟨hnb, hbd⟩ := hnb
+  have htopo : f4.p.topoDeep := by
+    intro np P hP vp hin q hq
+    match np with
+    | 0 =>
+      simp [f4, mkNode] at hP; subst hP
+      simp [xVar] at hin; subst hin
+      simp [VPat.refs] at hq
+    | 1 =>
+      simp [f4, mkNode] at hP; subst hP
+      simp at hin
+      rcases hin with rfl | rfl
+      · simp [VPat.refs, refsL] at hq; simp [hq]
+      · simp [VPat.refs] at hq; simp [hq]
+    | n + 2 => simp [f4] at hP
+  have hI := h f4 2 false r rfl (by decide) htopo hr
+  obtain ⟨n, hn, hs⟩ := hI.outNodes 1 (by decide)
+  have hnode0 : r.assign.node 0 = some 1 := by
+    show r.nb.lookup 0 = some 1
+    rw [hnb]; decide
+  have hy : r.assign.names "y" = some Bound.none := by
+    show r.bindings.lookup "y" = some Bound.none
+    rw [hbd]; decide
+  have hn2 : n = 2 := by
+    have : r.assign.node 1 = some 2 := by
+      show r.nb.lookup 1 = some 2
+      rw [hnb]; decide
+    rw [this] at hn; cases hn; rfl
+  subst hn2
+  cases hs with
+  | mk _ _ P N hP hN _ _ _ _ _ _ hsome _ =>
+    simp [f4, mkNode] at hP
+    simp [f4, mkGNode] at hN
+    subst hP hN
+    have h0 := hsome 0 _ rfl
+    simp only [inputAt] at h0
+    cases h0 with
+    | orB _ _ _ _ _ _ i alt _ _ hi hsa _ =>
+      match i with
+      | 0 =>
+        simp at hi; subst hi
+        cases hsa with
+        | out _ _ _ n' _ _ hp _ hn' =>
+          have : n' = 0 := by
+            have : f4.g.producer 1 = some 0 := by decide
+            rw [this] at hp; cases hp; rfl
+          subst this
+          have := satN_node hn'
+          rw [hnode0] at this
+          cases this
+      | 1 =>
+        simp at hi; subst hi
+        cases hsa with
+        | var _ _ _ _ _ _ hb _ _ =>
+          simp only [Assign.boundTo, GPat.vname] at hb
+          rw [hy] at hb
+          cases hb
+      | k + 2 => simp at hi
+
+/-- with the repaired `merge` the F4 witness is no longer reported through the first alternative; it is now
+*missed* (the committed first alternative is not revisited — finding C06-D11) -/
+example : (patternMatch { f4 with fixF3 := true } 2 false).isSome = false := by decide
+
+/-- `Add(OrValue([Neg(x), x]), z)` (a BacktrackingOr) against `n = Neg(a); s = Add(n, n)` -/
+def orEnv : Env :=
+  { p := { inputs := [some "x", some "z"], cond := true,
+           nodes := [mkNode "Neg" [some xVar] 1,
+                     mkNode "Add" [some (.orB 4 none (some "t") [7, 8] [.out 0 0, xVar]),
+                                   some (.var 3 (some "z") true false none)] 1],
+           outputs := [.out 1 0] }
+    g := { nodes := [mkGNode "Neg" [some 0] [1], mkGNode "Add" [some 1, some 1] [2]],
+           outputs := [2], consts := [], foreign := [], extUses := [] }
+    close := closeEq }
+
+/-- `match_sound_or_partial` is not vacuous: a pattern with a tagged BacktrackingOr satisfies its hypotheses
+and is matched (tag variable bound to the first alternative's tag) -/
+example : orEnv.fixF3 = true ∧ orEnv.p.backOk = true ∧ orEnv.p.dispOk = false ∧ orEnv.p.topoDeep ∧
+    (patternMatch orEnv 1 true).map (fun r => r.bindings) =
+      some [("x", .val 0), ("t", .tag 7), ("z", .val 1)] := by
+  refine ⟨rfl, by decide, by decide, ?_, by decide⟩
+  intro np P hP vp hin q hq
+  match np with
+  | 0 =>
+    simp [orEnv, mkNode] at hP; subst hP
+    simp [xVar] at hin; subst hin
+    simp [VPat.refs] at hq
+  | 1 =>
+    simp [orEnv, mkNode] at hP; subst hP
+    simp at hin
+    rcases hin with rfl | rfl
+    · simp [VPat.refs, refsL, xVar] at hq; simp [hq]
+    · simp [VPat.refs] at hq
+  | n + 2 => simp [orEnv] at hP
 
 /-! ## Non-vacuity -/
 
@@ -523,6 +699,136 @@ example : NamedVarsUnchecked okEnv.p ∧ NamedVarsUnchecked multiEnv.p := by
   · intro P hP vp hin _
     simp [okEnv, multiEnv, mkNode] at hP
     rcases hP with rfl | rfl <;> simp [xVar] at hin <;> (try rcases hin with rfl | rfl) <;> (try subst hin) <;> rfl
+
+/-- `Add(OrValue([Neg(x), Constant(5)]), z)`: a BacktrackingOr whose alternatives are exclusive in a graph
+without constants, against `n = Neg(a); s = Add(n, b)` -/
+def exEnv : Env :=
+  { p := { inputs := [some "x", some "z"], cond := true,
+           nodes := [mkNode "Neg" [some xVar] 1,
+                     mkNode "Add" [some (.orB 4 none none [0, 1]
+                        [.out 0 0, .const 5 { val := .scalar 5, relTol := ⟨1, 100000⟩, absTol := ⟨1, 100000000⟩ }]),
+                       some (.var 3 (some "z") true false none)] 1],
+           outputs := [.out 1 0] }
+    g := { nodes := [mkGNode "Neg" [some 0] [1], mkGNode "Add" [some 1, some 2] [3]],
+           outputs := [3], consts := [], foreign := [], extUses := [] }
+    close := closeEq }
+
+def exAssign : Assign :=
+  { names := fun k => if k = "x" then some (.val 0) else if k = "z" then some (.val 2) else none
+    node := fun np => if np = 0 then some 0 else if np = 1 then some 1 else none
+    leaf := fun k => if k = .leaf 4 then some (some 1) else if k = .outp 0 0 then some (some 1)
+                     else if k = .outp 1 0 then some (some 3) else none }
+
+/-- the hypotheses of `match_complete_or_partial` are satisfiable by a pattern with a BacktrackingOr -/
+example : exEnv.fixF3 = true ∧ exEnv.p.backOk = true ∧ exEnv.p.dispOk = false ∧ GPat.exclOk exEnv ∧
+    exEnv.p.outputNodes = [1] ∧ OutputsOfRoot exEnv.p 1 ∧ Instance exEnv 1 exAssign ∧
+    ChecksPass exEnv.p exAssign ∧ (patternMatch exEnv 1 true).isSome = true := by
+  have hx : SatV exEnv exAssign xVar (some 0) :=
+    .var 1 (some "x") true false none (some 0)
+      (by simp [Assign.boundTo, GPat.vname, exAssign, Bound.ofVal]) (by intro h; cases h)
+      (by intro x _ h; simp [exEnv, Graph.isForeign] at h)
+  have hz : SatV exEnv exAssign (.var 3 (some "z") true false none) (some 2) :=
+    .var 3 (some "z") true false none (some 2)
+      (by simp [Assign.boundTo, GPat.vname, exAssign, Bound.ofVal]) (by intro h; cases h)
+      (by intro x _ h; simp [exEnv, Graph.isForeign] at h)
+  have hn0 : SatN exEnv exAssign 0 0 := by
+    refine .mk 0 0 (mkNode "Neg" [some xVar] 1) (mkGNode "Neg" [some 0] [1]) rfl rfl rfl
+      (by decide) (by decide) ?_ (.inl (by decide)) ?_ ?_ ?_
+    · exact ⟨fun name ap h => by simp [mkNode] at h, fun h => by simp [mkNode] at h⟩
+    · intro i h
+      match i with
+      | 0 => simp [mkNode] at h
+      | n + 1 => simp [mkNode] at h
+    · intro i vp h
+      match i with
+      | 0 => simp [mkNode] at h; subst h; exact hx
+      | n + 1 => simp [mkNode] at h
+    · intro i hi
+      have : i = 0 := by simp [mkNode] at hi; omega
+      subst this
+      exact ⟨1, rfl, by simp [Assign.boundTo, GPat.vname, GPat.outName, VPat.key, exAssign, exEnv, mkNode]⟩
+  have ho : SatV exEnv exAssign (.out 0 0) (some 1) :=
+    .out 0 0 1 0 (by simp [Assign.boundTo, GPat.vname, GPat.outName, VPat.key, exAssign, exEnv, mkNode])
+      (by simp [exEnv, Graph.isForeign]) (by decide) (by decide) hn0
+  have hor : SatV exEnv exAssign (.orB 4 none none [0, 1]
+      [.out 0 0, .const 5 { val := .scalar 5, relTol := ⟨1, 100000⟩, absTol := ⟨1, 100000000⟩ }]) (some 1) :=
+    .orB 4 none none [0, 1] _ (some 1) 0 (.out 0 0)
+      (by simp [Assign.boundTo, GPat.vname, VPat.key, exAssign])
+      (by intro x _; simp [exEnv, Graph.isForeign]) rfl ho (by intro t h; cases h)
+  have hn1 : SatN exEnv exAssign 1 1 := by
+    refine .mk 1 1 _ (mkGNode "Add" [some 1, some 2] [3]) rfl rfl rfl (by decide) (by decide) ?_
+      (.inl (by decide)) ?_ ?_ ?_
+    · exact ⟨fun name ap h => by simp [mkNode] at h, fun h => by simp [mkNode] at h⟩
+    · intro i h
+      match i with
+      | 0 => simp [mkNode] at h
+      | 1 => simp [mkNode] at h
+      | n + 2 => simp [mkNode] at h
+    · intro i vp h
+      match i with
+      | 0 => simp [mkNode] at h; subst h; exact hor
+      | 1 => simp [mkNode] at h; subst h; exact hz
+      | n + 2 => simp [mkNode] at h
+    · intro i hi
+      have : i = 0 := by simp [mkNode] at hi; omega
+      subst this
+      exact ⟨3, rfl, by simp [Assign.boundTo, GPat.vname, GPat.outName, VPat.key, exAssign, exEnv, mkNode]⟩
+  refine ⟨rfl, by decide, by decide, ?_, by decide, ?_, ⟨?_, ?_, rfl⟩, ⟨?_, ?_⟩, by decide⟩
+  · intro P hP vp hin
+    simp [exEnv, mkNode] at hP
+    rcases hP with rfl | rfl
+    · simp [xVar] at hin; subst hin; exact ⟨trivial, rfl⟩
+    · simp at hin
+      rcases hin with rfl | rfl
+      · refine ⟨⟨?_, trivial, trivial, trivial⟩, rfl⟩
+        intro v i j ai aj hij hi hj hsat
+        have hj1 : j = 1 := by
+          match j, hj with
+          | 0, _ => omega
+          | 1, _ => rfl
+          | k + 2, hj => simp at hj
+        subst hj1
+        simp at hj
+        subst hj
+        obtain ⟨A', hs'⟩ := hsat
+        cases hs' with
+        | const _ _ x cv _ hc _ => simp [exEnv, Graph.constOf] at hc
+      · exact ⟨trivial, rfl⟩
+  · intro vp hvp
+    simp [exEnv] at hvp
+    subst hvp
+    exact ⟨0, _, rfl, rfl, by simp [mkNode]⟩
+  · intro np h
+    have : np = 1 := by simpa [exEnv, GPat.outputNodes, GPat.outputNodesCov] using h.symm
+    subst this; rfl
+  · intro np h
+    have : np = 1 := by simpa [exEnv, GPat.outputNodes, GPat.outputNodesCov] using h
+    subst this
+    exact ⟨1, rfl, hn1⟩
+  · intro np n P hnode hP
+    match np with
+    | 0 => simp [exEnv, mkNode] at hP; subst hP; simp
+    | 1 => simp [exEnv, mkNode] at hP; subst hP; simp
+    | k + 2 => simp [exEnv] at hP
+  · intro id v _
+    simp [exEnv, GPat.valueChecks, mkNode, vpChecks, vpChecksL, xVar]
+
+/-- `exEnv` also satisfies the remaining hypotheses of `match_complete_or_partial` / `match_iff_instance_partial` -/
+example : exEnv.p.topoDeep ∧ exEnv.fixF1 = true := by
+  refine ⟨?_, rfl⟩
+  intro np P hP vp hin q hq
+  match np with
+  | 0 =>
+    simp [exEnv, mkNode] at hP; subst hP
+    simp [xVar] at hin; subst hin
+    simp [VPat.refs] at hq
+  | 1 =>
+    simp [exEnv, mkNode] at hP; subst hP
+    simp at hin
+    rcases hin with rfl | rfl
+    · simp [VPat.refs, refsL] at hq; simp [hq]
+    · simp [VPat.refs] at hq
+  | n + 2 => simp [exEnv] at hP
 
 def f2Pat : GPat :=
   { inputs := [some "x"], cond := true,
